@@ -34,7 +34,8 @@ std::string Respond::toString() const
     oss << HttpVerToString(http_ver) << " " << StatusCodeToString(status_code) << CRLF;
     for (auto &head : headers)
         oss << head.first << ": " << head.second << CRLF;
-    oss << "Content-Length: " << body.length() << CRLF;
+    //! 不用 oss << size_t：全局 locale 带千分位时会输出 "12,002"
+    oss << "Content-Length: " << std::to_string(body.length()) << CRLF;
     oss << CRLF;
     oss << body;
 
